@@ -113,7 +113,7 @@ def run(col):
     prof = dict(PROFILE)
     prof['max_dim'] = 3 if col.tier == 'quick' else 4
     core.run_property(col, lambda: benchmachine.make_machine(col, pp, prof, Remove(col)),
-                      budget(50, 800, col.tier), tag='bench', stateful_step_count=budget(25, 40, col.tier))
+                      budget(50, 800, col.tier), tag='bench', stateful_step_count=25 if col.tier == 'quick' else 40)
     try:
         from engines import programs
     except ImportError:
